@@ -21,7 +21,7 @@ REPO = MUT + '/repo'
 VERIF = MUT + '/verif'
 
 OPS = [
-    (r'<=', '<'), (r'>=', '>'), (r'(?<![<>=!-])<(?![<=])', '<='), (r'(?<![<>=-])>(?![>=])', '>='),
+    (r'<=', '<'), (r'>=', '>'), (r'(?<= )<(?= )', '<='), (r'(?<= )>(?= )', '>='),
     (r'==', '!='), (r'!=', '=='), (r'&&', '||'), (r'\|\|', '&&'),
     (r'\+ 1\b', '+ 0'), (r'- 1\b', '- 0'), (r'\+ 1\b', '+ 2'), (r'- 1\b', '+ 1'),
     (r'\.min\(', '.max('), (r'\.max\(', '.min('),
@@ -117,7 +117,7 @@ def main():
     cands = candidates(sorted(files))
     picked = cands[offset::stride][:mx]
     print(f'{len(files)} files, {len(cands)} candidate mutants, running {len(picked)}', flush=True)
-    res = open(f'{MUT}/results.jsonl', 'a')
+    res = open(os.environ.get('MUT_RESULTS', f'{MUT}/results.jsonl'), 'a')
     env = 'CARGO_NET_OFFLINE=true '
     for n, (f, li, oi, a, b) in enumerate(picked):
         path = f'{REPO}/{f}'
